@@ -15,6 +15,10 @@ CLAIMS = {
         text="status/startTestRun/stopTestRun of CopyStreamResult, StreamTagger, TimestampingStreamResult, StreamFailFast and StreamToQueue are proved, for every target list, payload and tag set (set, frozenset or None), to forward exactly one identical call to each target in order (fold `deliver`), changing only the owned field, and to modify no object that existed before the call (frame obligations cover the caller's argument objects).",
         note="Targets are abstract Stream/queue/callback objects (one ghost event per call, no raise); list(map(methodcaller(..), targets)) is given the built-in meaning 'one event per element in order'; fields other than test_id/test_status are passed by keyword (precondition len(args) <= 2); datetime.now is an assumed library contract (returns a value that is not None).",
     ),
+    "C10": dict(
+        text="_StreamToTestRecord.status is proved per event, for every in-progress table and payload, to ignore events without a test id, to create or update exactly the record of (test id, route code) with the last status, latest tags, first/last timestamps and the chunk appended to the named attachment, and on a final status to call on_test exactly once with that record and remove it; stopTestRun is proved by a loop invariant (counting function over the ghost callback history) to report every remaining record exactly once and leave the table empty; StreamSummary._gather_test puts every reported test into exactly the list its status names and counts it, wasSuccessful is false iff errors/failures are non-empty; StreamToDict / StreamSummary / StreamToExtendedDecorator hand every call to their hook exactly once (dropping 'exists' in the latter).",
+        note="Representation invariant of the in-progress table (distinct keys hold distinct records, a record's details dict is its own object) is a precondition, established by the contracts of startTestRun/status (@new allocates a new record); _make_content_type and _details_to_str are assumed total functions; on_test is an abstract callback (one ghost event per call, no raise); 'every history' follows by induction over events from the per-event contracts (written argument, DESIGN.md).",
+    ),
 }
 
 NOT_APPLICABLE = {p: NOT_BUILT for p in ["C%02d" % i for i in range(1, 21)]}
